@@ -16,6 +16,21 @@ NAMES = ['x', 'y', 'z', 'w']
 IDS = ['a', 'b', 'utt3', 'd', 'e_5']
 
 
+def _ds(*ids):
+    return {i: {'v': k} for k, i in enumerate(ids)}
+
+
+# explicit descriptions that run first on every run: aliases whose overlapping members are NOT neighbours, a member named twice,
+# an overlap between the first and the last of four members, the same with the parts split over two descriptions
+FIXED = [
+    ([{'datasets': {'x': _ds('a', 'b'), 'y': _ds('utt3'), 'z': _ds('a', 'd')}, 'alias': {'al': ['x', 'y', 'z']}}], ['al', ['al'], 'x']),
+    ([{'datasets': {'x': _ds('a'), 'y': _ds('b')}, 'alias': {'al': ['x', 'y', 'x']}}], ['al']),
+    ([{'datasets': {'x': _ds('a'), 'y': _ds('b'), 'z': _ds('d'), 'w': _ds('e_5', 'a')}, 'alias': {'be': ['x', 'y', 'z', 'w']}}], ['be', 'y']),
+    ([{'datasets': {'x': _ds('a', 'b'), 'y': _ds('utt3')}}, {'datasets': {'z': _ds('b')}, 'alias': {'al': ['x', 'y', 'z']}}], ['al', 'z']),
+    ([{'datasets': {'x': _ds('a'), 'y': _ds('b'), 'z': _ds('d')}, 'alias': {'al': ['x', 'y', 'z'], 'be': ['z']}}], ['al', 'be', ['be', 'x']]),
+]
+
+
 def gen_part(r, first, used_names):
     p = {}
     if r.random() < 0.93:
@@ -38,7 +53,10 @@ def gen_part(r, first, used_names):
         al = {}
         for k in range(r.choice([0, 1, 1, 2])):
             an = r.choice(['al', 'be'] + (NAMES if r.random() < 0.15 else []))
-            al[an] = r.sample(NAMES, r.randint(0, 3))
+            members = r.sample(NAMES, r.choice([0, 1, 2, 3, 3, 4]))
+            if members and r.random() < 0.12:
+                members.append(members[0])             # a member named twice (not next to itself when there are others)
+            al[an] = members
         p['alias'] = al
     if r.random() < (0.35 if first else 0.08):
         p[r.choice(['meta', 'info'])] = r.choice([{'a': 1}, 7, 'txt', [1, 2]])
@@ -156,6 +174,8 @@ def run(tier):
         common.tick()
         parts = gen_desc(r)
         reqs = gen_requests(r, parts)
+        if ci < len(FIXED):
+            parts, reqs = copy.deepcopy(FIXED[ci])
         src = copy.deepcopy(parts)
         snap = copy.deepcopy(src)
         inner_ids = [(id(p.get('datasets')), id(p.get('alias')), [id(x) for x in p.get('datasets', {}).values()] if isinstance(p.get('datasets'), dict) else [])
